@@ -14,7 +14,13 @@ import (
 	"encoding/json"
 	"fmt"
 	"os"
+	"reflect"
+	"regexp"
+	"sort"
 	"strings"
+
+	"github.com/robfig/soy/ast"
+	"github.com/robfig/soy/template"
 
 	"github.com/robfig/soy"
 	"github.com/robfig/soy/data"
@@ -27,7 +33,7 @@ func init() { props["C02"] = runC02 }
 const c02Fuel = "#4000"
 
 func runC02(e *env) {
-	e.res.Rule = "bundles from the command grammar (nesting depth<=3, 1-6 templates over 1-3 namespaces and 1-6 files, soydoc or header params, optional params, relative / fully-qualified / aliased / name= call forms, both param syntaxes, data=all / data=$e / data=[map literal], params overriding passed data, recursion on a decreasing int, small name pool so that lets and loop variables shadow params and each other, scope probes) x 2 data sets satisfying the declared params; rendered by robfig/soy, by the Coq tree-walker model and by the Coq lexical-environment Spec on the dumped AST. Oracle: implementation output = Spec output (bytes, ok/error). Non-trivial = uses at least one of let/foreach/for/call/switch/if; distinct by source text + data."
+	e.res.Rule = "bundles from the command grammar (nesting depth<=3, 1-6 templates over 1-3 namespaces and 1-6 files, soydoc or header params, optional params, relative / fully-qualified / aliased / name= call forms, both param syntaxes, data=all / data=$e / data=[map literal], params overriding passed data, recursion on a decreasing int, small name pool so that lets and loop variables shadow params and each other, scope probes) x 2 data sets satisfying the declared params; rendered by robfig/soy, by the Coq tree-walker model, by the Coq lexical-environment Spec (Spec/Cmd.v) and by the composed Spec (Spec/CmdIndep.v: expressions by C01's Spec/Expr.v) on the dumped AST; a third stream applies one textual mutation (tag deleted / duplicated / swapped, let or special character inserted, tag wrapped in a let) and keeps what still compiles. Oracle: implementation output = Spec output (bytes, ok/error; the composed Spec must agree with Spec/Cmd.v whenever it answers). Also per file: call names resolved by the model's resolve_name = names of the parsed CallNodes; every {literal} body = the text of a raw-text node. wf_registry is evaluated on every dumped registry. Non-trivial = uses at least one of let/foreach/for/call/switch/if; distinct by source text + data."
 	if e.replay != "" {
 		c02Replay(e)
 		return
@@ -35,6 +41,12 @@ func runC02(e *env) {
 	// two streams from one PRNG state: the historical C02 stream (shared generator defaults) and the scope stream
 	runProgCorrespondence(e, 600*e.scale, progOpts{depth: 3, directives: true}, "C02")
 	runProgCorrespondence(e, 1800*e.scale, progOpts{depth: 3, directives: true, scope: true}, "C02")
+	// third stream: generated bundles with one textual mutation (a tag deleted, duplicated, swapped with its neighbour,
+	// a let/print pair or a special character inserted at a tag boundary).  Whatever still compiles is a template built
+	// from the property's constructs: wf_registry (the hypothesis of exec_impl_spec) must hold of its tree and the
+	// oracle applies unchanged.
+	c02Mutated(e, 700*e.scale)
+	c02Probes(e)
 	var hs []string
 	for _, k := range hx.SortedKeys(e.res.Histogram) {
 		if strings.HasPrefix(k, "feat:") {
@@ -61,30 +73,114 @@ func runProgCorrespondence(e *env, n int, o progOpts, prop string) {
 }
 
 func c02Bundle(e *env, files []srcFile, entry string, dataSets []data.Map, feats map[string]int, sample bool) {
+	c02BundleOpt(e, files, entry, dataSets, feats, sample, false)
+}
+
+// c02Probes: sources whose PARSE tree is not of the shape exec_impl_spec assumes (a {let} directly inside {msg} or
+// a plural case becomes a placeholder holding a let: wf_registry = false).  The compiler's data-reference check rejects
+// them (the let can never be used inside its placeholder); if one ever compiles, c02BundleOpt reports the shape.
+func c02Probes(e *env) {
+	for _, body := range []string{
+		`{msg desc="d"}a{let $x: 1 /}{$x}b{/msg}`,
+		`{msg desc="d"}{let $x}a{/let}{$x}{/msg}`,
+		`{msg desc="d"}{plural $a}{case 1}{let $x: 1 /}{$x}{default}b{/plural}{/msg}`,
+		`{msg desc="d"}x{let $a: 9 /}y{/msg}[{$a}]`,
+	} {
+		files := []srcFile{{Name: "probe.soy", Text: "{namespace ns}\n\n/** @param a */\n{template .t}\n" + body + "\n{/template}\n"}}
+		if c02BundleOpt(e, files, "ns.t", []data.Map{{"a": data.Int(1)}}, map[string]int{"probe": 1}, false, true) {
+			e.res.Histogram["probe:let-in-msg-compiles"]++
+		} else {
+			e.res.Histogram["probe:let-in-msg-rejected"]++
+		}
+	}
+}
+
+var c02TagRe = regexp.MustCompile(`\{[^{}]*\}`)
+
+// c02Mutated: see runC02.
+func c02Mutated(e *env, n int) {
+	for i := 0; i < n; i++ {
+		files, entry, dataSets, feats := genBundle(e.rng, progOpts{depth: 3, directives: true, scope: true})
+		fi := e.rng.Intn(len(files))
+		txt := files[fi].Text
+		rec := false
+		for _, f := range files {
+			rec = rec || strings.Contains(f.Text, "{template .rec}")
+		}
+		if rec {
+			// the property quantifies over recursion bounded by a decreasing argument: a mutation of the recursive
+			// template (a param deleted, a let moved) can make it unbounded, which overflows the Go stack
+			e.res.Histogram["mutated:skipped-recursive-bundle"]++
+			continue
+		}
+		tags := c02TagRe.FindAllStringIndex(txt, -1)
+		if len(tags) < 3 {
+			continue
+		}
+		k := 1 + e.rng.Intn(len(tags)-2)
+		a, z := tags[k][0], tags[k][1]
+		var mut, kind string
+		switch e.rng.Intn(6) {
+		case 0:
+			mut, kind = txt[:a]+txt[z:], "delete-tag"
+		case 1:
+			mut, kind = txt[:z]+txt[a:z]+txt[z:], "duplicate-tag"
+		case 2:
+			nz := tags[k+1][1]
+			mut, kind = txt[:a]+txt[tags[k+1][0]:nz]+txt[z:tags[k+1][0]]+txt[a:z]+txt[nz:], "swap-tags"
+		case 3:
+			mut, kind = txt[:a]+"{let $zz: 1 /}{$zz}"+txt[a:], "insert-let"
+		case 4:
+			mut, kind = txt[:a]+e.rng.Pick([]string{"{sp}", "{nil}", "{lb}", "{literal} {x}\n {/literal}", "{debugger}"})+txt[a:], "insert-special"
+		default:
+			mut, kind = txt[:a]+"{let $zz}"+txt[a:z]+"{/let}{$zz}"+txt[z:], "wrap-in-let"
+		}
+		mfiles := append([]srcFile(nil), files...)
+		mfiles[fi] = srcFile{Name: files[fi].Name, Text: mut}
+		e.res.Histogram["mutated:"+kind]++
+		feats["mutated"] = 1
+		if c02BundleOpt(e, mfiles, entry, dataSets, feats, false, true) {
+			e.res.Histogram["mutated-compiles:"+kind]++
+		}
+	}
+}
+
+// c02BundleOpt checks one bundle; with mayNotCompile a compile error is counted, not reported.  Returns whether the
+// bundle compiled.
+func c02BundleOpt(e *env, files []srcFile, entry string, dataSets []data.Map, feats map[string]int, sample, mayNotCompile bool) bool {
 	b := soy.NewBundle()
 	for _, f := range files {
 		b.AddTemplateString(f.Name, f.Text)
 	}
 	reg, err := b.Compile()
+	if err != nil && mayNotCompile {
+		return false
+	}
 	if err != nil {
 		e.res.Histogram["compile-errors"]++
 		e.res.Count(fmt.Sprint(files), false, "compile-error")
 		e.res.Fail(hx.Violation{Kind: "oracle", What: "a generated valid bundle is rejected by the compiler", Case: progCase{Files: files, Template: entry}, Observed: err.Error()}, "")
-		return
+		return false
 	}
+	c02Names(e, files, reg)
 	tofu := soyhtml.NewTofu(reg)
 	ids := newIDTable()
 	c02Reg++
-	key := fmt.Sprintf("reg%d", c02Reg)
+	key := "c02" // one key: loading a registry replaces the previous one (the model process keeps every key alive)
 	rs := registrySexp(reg, ids)
 	if r := e.m.Call("load_registry", key, rs); len(r) == 0 || r[0] != "#1" {
 		e.res.Fail(hx.Violation{Kind: "mismatch", What: "model cannot load the registry", Case: progCase{Files: files, Template: entry}, Observed: fmt.Sprint(r)}, "")
-		return
+		return false
 	}
 	if r := e.m.Call("load_registry_spec", key, rs); len(r) == 0 || r[0] != "#1" {
 		// exec_impl_spec assumes wf_registry; the parser must only produce such trees
 		e.res.Fail(hx.Violation{Kind: "mismatch", What: "the dumped AST is not of the shape exec_impl_spec assumes (wf_registry = false)", Case: progCase{Files: files, Template: entry}, Observed: fmt.Sprint(r)}, "")
-		return
+		return false
+	} else if len(r) >= 3 {
+		// how much of the bundle the independent expression Spec (Spec/Expr.v) reads: expression roots of_node is defined on
+		cov, tot := atoiHash(r[1]), atoiHash(r[2])
+		e.res.Histogram["expr-roots:total"] += tot
+		e.res.Histogram["expr-roots:by-Spec/Expr.v"] += cov
 	}
 	nontrivial := feats["let"]+feats["foreach"]+feats["for-range"]+feats["call"]+feats["switch"]+feats["if"]+feats["let-content"] > 0
 	for _, d := range dataSets {
@@ -113,7 +209,27 @@ func c02Bundle(e *env, files []srcFile, entry string, dataSets []data.Map, feats
 			e.res.Histogram["skipped:output>1MB"]++
 			continue
 		}
+		// the composed Spec (Spec/CmdIndep.v: commands by Spec/Cmd.v, expressions by C01's Spec/Expr.v) is the
+		// oracle whenever it gives an answer; it leaves the answer open (outofmodel) on inexact floats, int64
+		// overflow and randomInt, where Spec/Cmd.v alone (sharing the operator tables with the model) decides.
+		si := e.m.Call("render_spec_indep", key, sx(entry), c02Fuel, "-", "none", ";", dsx)
 		sr := e.m.Call("render_spec", key, sx(entry), c02Fuel, "-", "none", ";", dsx)
+		if len(si) >= 3 && len(sr) >= 3 {
+			icls := strings.Split(si[0], ",")[0]
+			e.res.Histogram["spec-indep:"+icls]++
+			// specs_agree, re-checked on this case: same bytes and same class unless Spec/Cmd.v ran out of fuel or
+			// the composed Spec leaves the answer open
+			if icls != "outofmodel" && strings.Split(sr[0], ",")[0] != "fuel" {
+				if icls != strings.Split(sr[0], ",")[0] || si[2] != sr[2] {
+					e.res.Fail(hx.Violation{Kind: "mismatch", What: "extracted Spec/Cmd.v and extracted Spec/CmdIndep.v disagree (specs_agree says they cannot)", Case: pc, Expected: si[0] + " " + hx.Q(hx.UnH(si[2])), Observed: sr[0] + " " + hx.Q(hx.UnH(sr[2]))}, "")
+				}
+				e.res.Histogram["oracle:composed-spec"]++
+			} else {
+				e.res.Histogram["oracle:Spec/Cmd.v-only"]++
+			}
+		} else {
+			e.res.Fail(hx.Violation{Kind: "mismatch", What: "composed Spec run failed", Case: pc, Observed: fmt.Sprint(si)}, "")
+		}
 		if len(sr) < 3 {
 			e.res.Fail(hx.Violation{Kind: "mismatch", What: "Spec run failed", Case: pc, Observed: fmt.Sprint(sr)}, "")
 			continue
@@ -182,6 +298,7 @@ func c02Bundle(e *env, files []srcFile, entry string, dataSets []data.Map, feats
 			e.res.Fail(hx.Violation{Kind: "mismatch", What: "model outcome " + r[0], Case: pc, Observed: hx.Q(out)}, "")
 		}
 	}
+	return true
 }
 
 // c02Replay re-runs exactly the case of a replay file.
@@ -212,4 +329,112 @@ func c02Replay(e *env) {
 		}
 	}
 	c02Bundle(e, rp.Case.Files, rp.Case.Template, ds, map[string]int{"let": 1}, true)
+}
+
+// atoiHash reads a "#<int>" field of a model response (0 if malformed).
+func atoiHash(s string) int {
+	n := 0
+	for _, c := range strings.TrimPrefix(s, "#") {
+		if c < '0' || c > '9' {
+			return 0
+		}
+		n = n*10 + int(c-'0')
+	}
+	return n
+}
+
+var (
+	c02NsRe    = regexp.MustCompile(`\{namespace\s+([\w.]+)`)
+	c02AliasRe = regexp.MustCompile(`\{alias\s+([\w.]+)\s*\}`)
+	c02CallRe  = regexp.MustCompile(`\{call\s+(?:name="([^"]+)"|([.\w]+))`)
+	c02LitRe   = regexp.MustCompile(`(?s)\{literal\}(.*?)\{/literal\}`)
+)
+
+func c02WalkAll(n ast.Node, f func(ast.Node)) {
+	if n == nil {
+		return
+	}
+	if v := reflect.ValueOf(n); v.Kind() == reflect.Ptr && v.IsNil() {
+		return
+	}
+	f(n)
+	if p, ok := n.(ast.ParentNode); ok {
+		for _, c := range p.Children() {
+			c02WalkAll(c, f)
+		}
+	}
+}
+
+// c02Names ties Model/Parser.v resolve_name (about which call_name_resolution is proved) to parse.go: for every
+// file, the names written in its {call} tags (read off the generated source text), resolved by the extracted model
+// against the file's namespace and aliases, must be the names the CallNodes of the parsed file carry.
+func c02Names(e *env, files []srcFile, reg *template.Registry) {
+	for _, f := range files {
+		ns := ""
+		if m := c02NsRe.FindStringSubmatch(f.Text); m != nil {
+			ns = m[1]
+		}
+		var als []string
+		for _, m := range c02AliasRe.FindAllStringSubmatch(f.Text, -1) {
+			full := m[1]
+			als = append(als, hx.H(full[strings.LastIndex(full, ".")+1:])+"="+hx.H(full))
+		}
+		alf := "-"
+		if len(als) > 0 {
+			alf = strings.Join(als, ",")
+		}
+		var want []string
+		for _, m := range c02CallRe.FindAllStringSubmatch(f.Text, -1) {
+			written := m[1]
+			if written == "" {
+				written = m[2]
+			}
+			r := e.m.Call("resolve_name", hx.H(ns), alf, hx.H(written))
+			if len(r) != 1 {
+				e.res.Fail(hx.Violation{Kind: "mismatch", What: "model resolve_name failed", Case: progCase{Files: files}, Observed: fmt.Sprint(r)}, "")
+				return
+			}
+			want = append(want, hx.UnH(r[0]))
+			switch {
+			case written[0] == '.':
+				e.res.Histogram["names:relative"]++
+			case hx.UnH(r[0]) != written:
+				e.res.Histogram["names:aliased"]++
+			default:
+				e.res.Histogram["names:fully-qualified"]++
+			}
+		}
+		var got []string
+		raw := map[string]int{}
+		for _, sf := range reg.SoyFiles {
+			if sf.Name != f.Name {
+				continue
+			}
+			for _, n := range sf.Body {
+				c02WalkAll(n, func(n ast.Node) {
+					if c, ok := n.(*ast.CallNode); ok {
+						got = append(got, c.Name)
+					}
+					if t, ok := n.(*ast.RawTextNode); ok {
+						raw[string(t.Text)]++
+					}
+				})
+			}
+		}
+		// literal_tag (Properties/C02.v): the body of every {literal} block of the source text is the text of a raw-text
+		// node of the parsed file, byte for byte (no line joining, no comments, no tags)
+		for _, m := range c02LitRe.FindAllStringSubmatch(f.Text, -1) {
+			e.res.Histogram["literal-blocks"]++
+			if raw[m[1]] == 0 {
+				e.res.Fail(hx.Violation{Kind: "oracle", What: "a {literal} block does not reach the syntax tree byte for byte", Case: progCase{Files: files}, Expected: hx.Q(m[1])}, "")
+			} else {
+				raw[m[1]]--
+			}
+		}
+		sort.Strings(want)
+		sort.Strings(got)
+		if strings.Join(want, " ") != strings.Join(got, " ") {
+			e.res.Fail(hx.Violation{Kind: "mismatch", What: "call names of the parsed file differ from the model's resolution (Model/Parser.v resolve_name) of the written names", Case: progCase{Files: files}, Expected: strings.Join(want, " "), Observed: strings.Join(got, " ")}, "")
+		}
+	}
 }
